@@ -88,6 +88,10 @@ func (d *jsonDecoder) cutFieldsBySize(data []byte) []byte {
 		if !v.Exists() || v.Type != gjson.String || len(v.Str) <= limit {
 			return jsonCutPos{}, false
 		}
+		// a computed value (a path with a modifier) isn't a piece of the document: it has no position to cut at
+		if v.Index <= 0 {
+			return jsonCutPos{}, false
+		}
 
 		// [v.Index] is value start position including quote (").
 		// Positions are counted in the raw (escaped) text, which is longer than [v.Str] when the value has escapes.
@@ -126,8 +130,14 @@ func (d *jsonDecoder) cutFieldsBySize(data []byte) []byte {
 	slices.SortFunc(d.cutPositions, func(p1, p2 jsonCutPos) int {
 		return p2.start - p1.start
 	})
+	// two paths may resolve to the same field: a position at or behind the previous cut has been handled already
+	prevStart := len(data)
 	for _, p := range d.cutPositions {
+		if p.end >= prevStart {
+			continue
+		}
 		data = append(data[:p.start], data[p.end+1:]...)
+		prevStart = p.start
 	}
 
 	return data
